@@ -309,3 +309,35 @@ def postproc_traces(ctx, extra_sources=()):
         if groups:
             ctx.sample({'trace_event': groups[0][1][-1]})
     return tot
+
+
+# --------------------------------------------------------------------------------------
+SYSTEM_CFG = '\n'.join([
+    'CONSTANTS Items = {"density", "diameter", "potential", "closure", "omega", "domain", "kT"}',
+    'Optional = {"kT"}', 'Editable = {}', 'MaxMissing = 0', 'MaxPrisms = 1', 'MaxSteps = 1000000',
+    'INIT TraceInit', 'NEXT TraceNext', 'VIEW TraceView', 'CHECK_DEADLOCK FALSE',
+    'INVARIANTS CreateRaisesIffIncomplete',
+    'POSTCONDITION TraceAccepted', ''])
+
+
+def system_traces(ctx, sources):
+    tot = 0
+    for name, evs, info in sources:
+        # top-level calls only: System.solve()/createPRISM() call check() themselves
+        sysev = [e for e in evs if e['ev'] in ('system.check', 'system.createPRISM', 'system.solve')
+                 and not e.get('parent', '').startswith('system.')]
+        groups = {}
+        order = []
+        for e in sysev:
+            o = (e.get('pid'), e['sys'])
+            if o not in groups:
+                groups[o] = []
+                order.append(o)
+            groups[o].append(e)
+        gl = [(o, groups[o]) for o in order]
+        a, b = validate(ctx, 'Trace_SystemLife', SYSTEM_CFG, gl, 'trace.SystemLife.' + name)
+        tot += a
+        ctx.stage('trace.SystemLife.' + name, systems=len(gl), systems_accepted=a, events_accepted=b, source=info)
+        if gl:
+            ctx.sample({'trace_event': gl[0][1][-1]})
+    return tot
